@@ -107,6 +107,7 @@ type PathState struct {
 	lastClock *term.Term
 	clockConcrete uint64 // >0: time.Now returns concrete instants this far apart (zz.ConcreteClock)
 	clockNow      uint64
+	blobSeq      int // creation counter of opaque codec outputs (orders them)
 	clockMaxStep uint64 // >0: consecutive clock readings differ by at most this (zz.PacedClock)
 	inHarnessDepth int
 }
